@@ -56,6 +56,39 @@ def seqAt (off : Nat) (c : Bytes) : Nat :=
   | a :: b :: c :: d :: _ => le32 a b c d
   | _ => 0
 
+/-- arm tags of one `rt`/`sz` op (coverage accounting only) -/
+def armsRt (s : Sender) (t : MType) (maxMsg maxChunk msgLen dataLen : Nat) (res : EncRes) : List String :=
+  let kind := match t with | .msg => "kind-msg" | .opn => "kind-opn" | .clo => "kind-clo"
+  let cfg := "cfg-" ++ s.policy.name ++ "-" ++ modeName s.mode
+  let role := if s.isClient then "role-client" else "role-server"
+  let mm := if maxMsg = 0 then "maxmsg-off" else cmp3 "msglen-vs-maxmsg" msgLen maxMsg
+  let mc := if maxChunk = 0 then "chunk-off" else cmp3 "maxchunk-vs-8196" maxChunk 8196
+  [kind, cfg, role, mm, mc] ++
+  match res with
+  | .err true => ["enc-too-large"]
+  | .err false => ["enc-below-min-chunk"]
+  | .panic => ["enc-panic"]
+  | .chunks cs =>
+    let n := cs.length
+    let cnt := if n = 1 then "chunks-1" else if n = 2 then "chunks-2" else "chunks-3plus"
+    let sec := if secured s then "secured" else "unsecured"
+    let extra :=
+      if maxChunk = 0 then [] else
+      match maxBody s t maxChunk with
+      | none => []
+      | some mb =>
+        [if mb < maxChunk - overhead s t then "budget-shrunk" else "budget-exact",
+         if mb = 0 then "budget-zero" else if dataLen % mb = 0 then "last-chunk-full" else "last-chunk-partial",
+         cmp3 "datalen-vs-budget" dataLen mb]
+    let pad :=
+      if ¬ secured s then [] else
+      let hdr := 12 + (secHdr s t).length + 8
+      let last := (cs.getLast?.map List.length).getD hdr - hdr
+      let (ps, mp) := paddingSize s t last
+      [if ps = 0 then "pad-none" else if ps = mp then "pad-min" else if t ≠ .opn ∧ ps = 16 then "pad-max" else "pad-mid"] ++
+      (if t = .opn then [if mp = 2 then "opn-extra-padding-byte" else "opn-one-padding-byte"] else [])
+    [cnt, sec] ++ extra ++ pad
+
 def rtStep (s : Sender) (t : MType) (seq req maxMsg maxChunk msgLen nidLen : Nat) : String :=
   let data := List.replicate (nidLen + msgLen) 97
   match encode s t seq req maxMsg maxChunk msgLen data with
@@ -91,7 +124,13 @@ def dstep (s : Sender) (toks : List String) : Sender × String :=
   | [op, kind, seq, req, maxMsg, maxChunk, _, msgLen, nidLen] =>
     if op ≠ "rt" ∧ op ≠ "sz" then (s, "bad-op") else
     match parseKind? kind, seq.toNat?, req.toNat?, maxMsg.toNat?, maxChunk.toNat?, msgLen.toNat?, nidLen.toNat? with
-    | some t, some seq, some req, some mm, some mc, some ml, some nl => (s, rtStep s t seq req mm mc ml nl)
+    | some t, some seq, some req, some mm, some mc, some ml, some nl =>
+      let out := rtStep s t seq req mm mc ml nl
+      let res := encode s t seq req mm mc ml (List.replicate (nl + ml) 97)
+      let tail := if (out.splitOn " recv=ok").length > 1 then
+          ["recv-ok", if (out.splitOn " pre=1").length > 1 then "prefix-yes" else "prefix-no"]
+        else if (out.splitOn " recv=").length > 1 then ["recv-rejected"] else []
+      (s, out ++ " @@ " ++ ",".intercalate (armsRt s t mm mc ml (nl + ml) res ++ tail))
     | _, _, _, _, _, _, _ => (s, "bad-op")
   | _ => (s, "bad-op")
 
